@@ -31,6 +31,7 @@ type IngestScenario struct {
 	// Third directed family: the consumer is busy inside the sink (it holds no buffer reference) while ONE producer fills and
 	// expands the buffer several times; afterwards every row is processed in emission order (no admitted deviation here).
 	Stalled bool `json:"stalled"`
+	StallMs int  `json:"stall_ms"` // free-running: the sink sleeps this long on its FIRST result (a consumer stuck for seconds while producers wait)
 	// every Empties-th row of a producer is handed in as an empty or nil map (a row without attributes is a row:
 	// it is processed and reported like any other, or counted as dropped)
 	Empties int `json:"empties"`
@@ -115,6 +116,9 @@ func RunIngest(sc IngestScenario) (evs []Ev, inconclusive string) {
 				sinkParked <- struct{}{}
 				<-sinkGate
 			})
+		}
+		if sc.StallMs > 0 {
+			firstSink.Do(func() { time.Sleep(time.Duration(sc.StallMs) * time.Millisecond) })
 		}
 		if sc.SlowSink > 0 {
 			time.Sleep(time.Duration(sc.SlowSink) * time.Microsecond)
